@@ -971,7 +971,13 @@ func run(ctx *Ctx) *Result {
 			fmt.Fprintln(os.Stderr, err)
 			os.Exit(2)
 		}
-		runCase(c)
+		if c.Dev != "" || c.Spoc != "" {
+			runCase(c)
+		} else if prop == "C07" || prop == "C08" {
+			iosRun(ctx, res, lean, 0, false) // an IOS case (ios_device / ios_netspoc)
+		} else {
+			runCase(c)
+		}
 		return res
 	}
 	for _, c := range corpus() {
@@ -1008,6 +1014,12 @@ func run(ctx *Ctx) *Result {
 			c.Dev = c.dev.print()
 		}
 		runCase(c)
+	}
+	if prop == "C07" || prop == "C08" {
+		// the IOS crypto map code (sub-command form, GDOI maps) under these properties too
+		workDirASA := workDir
+		iosRun(ctx, res, lean, ctx.N(300, 5000), false)
+		workDir = workDirASA
 	}
 	lean.finish()
 	return res
